@@ -24,11 +24,11 @@ def sin(x: Expression | float) -> UnaryOp:
         Expression representing sin(x).
     """
     # Handle vector inputs element-wise
-    from optyx.core.vectors import VectorExpression, VectorVariable, ElementwiseUnary
+    from optyx.core.vectors import ElementwisePower, ElementwiseUnary, VectorExpression, VectorVariable
 
     if isinstance(x, VectorVariable):
         return ElementwiseUnary(x, "sin")  # type: ignore
-    if isinstance(x, VectorExpression):
+    if isinstance(x, (VectorExpression, ElementwisePower, ElementwiseUnary)):
         return VectorExpression([sin(xi) for xi in x])  # type: ignore
 
     return UnaryOp(_ensure_expr(x), "sin")
@@ -44,11 +44,11 @@ def cos(x: Expression | float) -> UnaryOp:
         Expression representing cos(x).
     """
     # Handle vector inputs element-wise
-    from optyx.core.vectors import VectorExpression, VectorVariable, ElementwiseUnary
+    from optyx.core.vectors import ElementwisePower, ElementwiseUnary, VectorExpression, VectorVariable
 
     if isinstance(x, VectorVariable):
         return ElementwiseUnary(x, "cos")  # type: ignore
-    if isinstance(x, VectorExpression):
+    if isinstance(x, (VectorExpression, ElementwisePower, ElementwiseUnary)):
         return VectorExpression([cos(xi) for xi in x])  # type: ignore
 
     return UnaryOp(_ensure_expr(x), "cos")
@@ -64,11 +64,11 @@ def tan(x: Expression | float) -> UnaryOp:
         Expression representing tan(x).
     """
     # Handle vector inputs element-wise
-    from optyx.core.vectors import VectorExpression, VectorVariable, ElementwiseUnary
+    from optyx.core.vectors import ElementwisePower, ElementwiseUnary, VectorExpression, VectorVariable
 
     if isinstance(x, VectorVariable):
         return ElementwiseUnary(x, "tan")  # type: ignore
-    if isinstance(x, VectorExpression):
+    if isinstance(x, (VectorExpression, ElementwisePower, ElementwiseUnary)):
         return VectorExpression([tan(xi) for xi in x])  # type: ignore
 
     return UnaryOp(_ensure_expr(x), "tan")
@@ -84,11 +84,11 @@ def exp(x: Expression | float) -> UnaryOp:
         Expression representing exp(x).
     """
     # Handle vector inputs element-wise
-    from optyx.core.vectors import VectorExpression, VectorVariable, ElementwiseUnary
+    from optyx.core.vectors import ElementwisePower, ElementwiseUnary, VectorExpression, VectorVariable
 
     if isinstance(x, VectorVariable):
         return ElementwiseUnary(x, "exp")  # type: ignore
-    if isinstance(x, VectorExpression):
+    if isinstance(x, (VectorExpression, ElementwisePower, ElementwiseUnary)):
         return VectorExpression([exp(xi) for xi in x])  # type: ignore
 
     return UnaryOp(_ensure_expr(x), "exp")
@@ -104,11 +104,11 @@ def log(x: Expression | float) -> UnaryOp:
         Expression representing log(x).
     """
     # Handle vector inputs element-wise
-    from optyx.core.vectors import VectorExpression, VectorVariable, ElementwiseUnary
+    from optyx.core.vectors import ElementwisePower, ElementwiseUnary, VectorExpression, VectorVariable
 
     if isinstance(x, VectorVariable):
         return ElementwiseUnary(x, "log")  # type: ignore
-    if isinstance(x, VectorExpression):
+    if isinstance(x, (VectorExpression, ElementwisePower, ElementwiseUnary)):
         return VectorExpression([log(xi) for xi in x])  # type: ignore
 
     return UnaryOp(_ensure_expr(x), "log")
@@ -124,11 +124,11 @@ def sqrt(x: Expression | float) -> UnaryOp:
         Expression representing sqrt(x).
     """
     # Handle vector inputs element-wise
-    from optyx.core.vectors import VectorExpression, VectorVariable, ElementwiseUnary
+    from optyx.core.vectors import ElementwisePower, ElementwiseUnary, VectorExpression, VectorVariable
 
     if isinstance(x, VectorVariable):
         return ElementwiseUnary(x, "sqrt")  # type: ignore
-    if isinstance(x, VectorExpression):
+    if isinstance(x, (VectorExpression, ElementwisePower, ElementwiseUnary)):
         return VectorExpression([sqrt(xi) for xi in x])  # type: ignore
 
     return UnaryOp(_ensure_expr(x), "sqrt")
@@ -146,11 +146,11 @@ def abs_(x: Expression | float) -> UnaryOp:
         Expression representing |x|.
     """
     # Handle vector inputs element-wise
-    from optyx.core.vectors import VectorExpression, VectorVariable, ElementwiseUnary
+    from optyx.core.vectors import ElementwisePower, ElementwiseUnary, VectorExpression, VectorVariable
 
     if isinstance(x, VectorVariable):
         return ElementwiseUnary(x, "abs")  # type: ignore
-    if isinstance(x, VectorExpression):
+    if isinstance(x, (VectorExpression, ElementwisePower, ElementwiseUnary)):
         return VectorExpression([abs_(xi) for xi in x])  # type: ignore
 
     return UnaryOp(_ensure_expr(x), "abs")
@@ -166,11 +166,11 @@ def tanh(x: Expression | float) -> UnaryOp:
         Expression representing tanh(x).
     """
     # Handle vector inputs element-wise
-    from optyx.core.vectors import VectorExpression, VectorVariable, ElementwiseUnary
+    from optyx.core.vectors import ElementwisePower, ElementwiseUnary, VectorExpression, VectorVariable
 
     if isinstance(x, VectorVariable):
         return ElementwiseUnary(x, "tanh")  # type: ignore
-    if isinstance(x, VectorExpression):
+    if isinstance(x, (VectorExpression, ElementwisePower, ElementwiseUnary)):
         return VectorExpression([tanh(xi) for xi in x])  # type: ignore
 
     return UnaryOp(_ensure_expr(x), "tanh")
@@ -186,11 +186,11 @@ def sinh(x: Expression | float) -> UnaryOp:
         Expression representing sinh(x).
     """
     # Handle vector inputs element-wise
-    from optyx.core.vectors import VectorExpression, VectorVariable, ElementwiseUnary
+    from optyx.core.vectors import ElementwisePower, ElementwiseUnary, VectorExpression, VectorVariable
 
     if isinstance(x, VectorVariable):
         return ElementwiseUnary(x, "sinh")  # type: ignore
-    if isinstance(x, VectorExpression):
+    if isinstance(x, (VectorExpression, ElementwisePower, ElementwiseUnary)):
         return VectorExpression([sinh(xi) for xi in x])  # type: ignore
 
     return UnaryOp(_ensure_expr(x), "sinh")
@@ -206,11 +206,11 @@ def cosh(x: Expression | float) -> UnaryOp:
         Expression representing cosh(x).
     """
     # Handle vector inputs element-wise
-    from optyx.core.vectors import VectorExpression, VectorVariable, ElementwiseUnary
+    from optyx.core.vectors import ElementwisePower, ElementwiseUnary, VectorExpression, VectorVariable
 
     if isinstance(x, VectorVariable):
         return ElementwiseUnary(x, "cosh")  # type: ignore
-    if isinstance(x, VectorExpression):
+    if isinstance(x, (VectorExpression, ElementwisePower, ElementwiseUnary)):
         return VectorExpression([cosh(xi) for xi in x])  # type: ignore
 
     return UnaryOp(_ensure_expr(x), "cosh")
